@@ -854,6 +854,7 @@ spif_dlinked_list_remove(spif_dlinked_list_t self, spif_obj_t item)
     spif_dlinked_list_item_t current, tmp;
 
     ASSERT_RVAL(!SPIF_LIST_ISNULL(self), (spif_obj_t) NULL);
+    REQUIRE_RVAL(!SPIF_OBJ_ISNULL(item), (spif_obj_t) NULL);
     if (SPIF_DLINKED_LIST_ITEM_ISNULL(self->head)) {
         return (spif_obj_t) NULL;
     }
@@ -1102,6 +1103,7 @@ spif_dlinked_list_iterator_show(spif_dlinked_list_iterator_t self, spif_charptr_
 static spif_cmp_t
 spif_dlinked_list_iterator_comp(spif_dlinked_list_iterator_t self, spif_dlinked_list_iterator_t other)
 {
+    SPIF_OBJ_COMP_CHECK_NULL(self, other);
     return spif_dlinked_list_comp(self->subject, other->subject);
 }
 
